@@ -283,3 +283,35 @@ def c14(run):
     validate_trace(run, "CelOpTrace", path, sample_key=op_sample,
                    nontrivial=lambda c: bool(c["a"].get("e") or c["b"].get("e")),
                    what="map / list / string operation disagrees with the specification (all query forms are defined from one HasKey)")
+
+
+# ----------------------------------------------------------------------------------------------
+# C11
+
+@check("C11")
+def c11(run):
+    run.rule = ("model: CelContext state graph (2 names quick / 3 names thorough, 2 values, 3 levels) with InnermostWins, ParentsFrozen, CloseRestores, "
+                "NamespacesDisjoint; spec->impl: EVERY transition of that graph replayed on a real Context from a shortest path (transition coverage), "
+                "all lookups (variable and function namespace) compared after every operation and while scopes are dropped; impl->spec: random operation "
+                "sequences up to length 200; macro scoping: all programs nesting up to 3 macros over a name pool that also names context variables "
+                "(CelEvalMC_C11, invariants ScopeDiscipline/ScopesClosed) replayed, plus random programs with clashing names; non-trivial = at least one open or redefinition")
+    r = model_check(run, "CelContextMC", cfg=run.q("CelContextMC_q", "CelContextMC"), workers=1, timeout=3000)
+    vec = run.work("ctx_vectors.ndjson")
+    with open(vec, "w") as f:
+        for v in r.vecs:
+            f.write(v + "\n")
+    cases = run.work("ctx_cases.ndjson")
+    celconf(["ctx-vectors", "--in", vec, "--out", cases])
+    run.extra["context_graph"] = {"distinct_states": r.distinct, "transitions_replayed": len(r.vecs)}
+    nt = lambda c: any(o["op"] == "open" for o in c["ops"]) or len({o["n"] for o in c["ops"] if o["op"] == "define"}) < sum(1 for o in c["ops"] if o["op"] == "define")
+    sk = lambda c: {"ops": [(o["op"], o["n"], o["v"]) for o in c["ops"]], "last_obs": c["obs"][-1] if c["obs"] else None}
+    validate_trace(run, "CelContextTrace", cases, nontrivial=nt, sample_key=sk,
+                   what="context history: a lookup observed on the real Context differs from the CelContext model")
+    rnd = run.work("ctx_random.ndjson")
+    celconf(["ctx-random", "--seed", run.seed, "--n", run.q(1000, 30000), "--len", run.q(40, 200), "--out", rnd])
+    validate_trace(run, "CelContextTrace", rnd, nontrivial=nt, sample_key=sk,
+                   what="context history: a lookup observed on the real Context differs from the CelContext model")
+    run.exhaustive = True
+    mc_vectors(run, run.q("CelEvalMC_C11", "CelEvalMC_C11_thorough"), nontrivial=lambda c: True)
+    path = drive_eval(run, "c11", run.q(1500, 30000))
+    validate_trace(run, "CelEvalTrace", path, nontrivial=lambda c: '"comp"' in json.dumps(c.get("ast")))
